@@ -1052,6 +1052,11 @@ class C03Executor(ET.ETreeMixin, X.UnitsExecutor):
         while body and isinstance(body[0], ast.Assign) and len(body[0].targets) == 1 and isinstance(body[0].targets[0], ast.Name) and len(body) > 1:
             temps[body[0].targets[0].id] = body[0].value
             body.pop(0)
+        guards = []
+        while len(body) > 1 and isinstance(body[0], ast.If) and not body[0].orelse and len(body[0].body) == 1 and isinstance(body[0].body[0], ast.Continue):
+            t = body[0].test            # `if skip: continue` in front of the append == the append under `if not skip`
+            guards.append(t.operand if isinstance(t, ast.UnaryOp) and isinstance(t.op, ast.Not) else ast.UnaryOp(ast.Not(), t))
+            body.pop(0)
         if len(body) != 1:
             return None
         last, cond = body[0], None
@@ -1067,6 +1072,8 @@ class C03Executor(ET.ETreeMixin, X.UnitsExecutor):
         used = {n.id for n in ast.walk(L) if isinstance(n, ast.Name)}
         if used & (tnames | set(temps)):
             return None
+        if guards:
+            cond = ast.BoolOp(ast.And(), guards + ([cond] if cond is not None else [])) if len(guards) + (cond is not None) > 1 else guards[0]
         for e in list(temps.values()) + [last.value.args[0]] + ([cond] if cond is not None else []):
             if any(isinstance(n, (ast.Yield, ast.YieldFrom, ast.NamedExpr, ast.Await, ast.Lambda)) for n in ast.walk(e)):
                 return None
